@@ -3,20 +3,27 @@
   PROPERTY THEOREMS about the model `Orb.TileCover` (maptile/tilecover: helpers.go, line_string.go,
   polygon.go, merge.go) on top of the proved tile arithmetic of C13 (`Orb.Tile`).
 
-  * covers: point / multi-point / bound / collection are characterised exactly; no input makes
-    `Geometry` panic (`cover_total`); a polygon cover contains its boundary trace and every filled
-    tile lies on a traced row strictly between two traced tiles.
+  * covers: point / multi-point / bound / collection are characterised exactly; multi-line-strings and
+    multi-polygons are the unions of their members' covers or the first failing member's outcome
+    (`cover_multiLineString_union`, `cover_multiPolygon_union`, `…_error`; any number type, so also the
+    Float twin); no input makes `Geometry` panic (`cover_total`); a polygon cover contains its boundary
+    trace and every filled tile lies on a traced row strictly between two traced tiles
+    (`polygon_within_trace_bound`, whose no-wrap hypothesis concerns only the intersection entries of the
+    input at hand).
   * `MergeUp`: for EVERY enumeration order of the Go map (`Orders.Fair`: each `range` visits every
     key; every permutation qualifies) the result is the closed form `mergeUp_closed_form`, hence
     order-independent, and satisfies the four clauses of the property (`mergeUp_spec`).
   * DDA (exact arithmetic, ordered field with floor, one segment): the loop terminates; the tiles form a
     4-connected chain from ⌊start⌋ to a tile whose closed square contains `stop`; every tile's closed
     square meets the segment (`dda_sound`) and every tile whose open square the segment enters is
-    present (`dda_complete`); both lifted to whole line strings (`lineString_cover_exact`).
+    present (`dda_complete`); both lifted to whole line strings (`lineString_cover_exact`), to
+    multi-line-strings (`multiLineString_cover_exact`) and to the boundary of polygons and multi-polygons
+    (`polygon_boundary_complete`, `multiPolygon_boundary_complete`); a polygon cover stays inside the
+    tile-space bound of its vertices (`polygon_within_vertex_bound`).
     Floating-point rounding of the accumulated `tMax` is NOT covered (it is
     what the bit-exact Float twin and the executable property with its 1e-6-tile margin are for).
-  * NOT a theorem (kept as `polygon_interior_full : Prop`, carried by the executable property in the
-    driver): the scan-line fill covers every tile whose interior meets the polygon's interior.
+  * the polygon INTERIOR clause is stated here (`polygon_interior_full : Prop`) and proved in
+    `OrbProofs.C14Fill` (`polygon_interior_full_holds`, which imports this file).
 -/
 import OrbProofs.C14Lemmas
 
@@ -76,14 +83,65 @@ theorem polygon_contains_boundary_cover (ops : Ops α) (zoom fuel : Nat) (set : 
     ∃ set' inter, traceRings ops zoom fuel set [] rings = .ok (set', inter) ∧ ∀ t ∈ set', t ∈ S :=
   polygon_contains_boundary_cover' ops zoom fuel set rings S h
 
-/-- Every other tile of a polygon cover was filled on the row of a traced tile, strictly between two
-    traced tiles: the cover stays inside the tile-space bound of the boundary trace. -/
-theorem polygon_within_trace_bound (ops : Ops α) (hU : ∀ v, ops.toU32 v + 1 < 2 ^ 32) (zoom fuel : Nat)
+/-- Every tile of a polygon cover is a traced tile, or was filled on the row of a traced tile strictly
+    between two traced tiles: the cover stays inside the tile-space bound of the boundary trace.
+    The only hypothesis is that no INTERSECTION ENTRY OF THIS INPUT sits in the last `uint32` column
+    (`for x := I[i].x + 1; …` would wrap there); the entries are themselves traced tiles. -/
+theorem polygon_within_trace_bound (ops : Ops α) (zoom fuel : Nat)
     (rings : List (List (Pt α))) (S : List Tile) (h : polygon ops zoom fuel [] rings = .ok S) :
     ∃ set' inter, traceRings ops zoom fuel [] [] rings = .ok (set', inter) ∧
-      ∀ t ∈ S, t ∈ set' ∨
-        ∃ a b, a ∈ set' ∧ b ∈ set' ∧ t.z = zoom ∧ t.y = a.y ∧ a.x < t.x ∧ t.x < b.x :=
-  polygon_within_trace_bound' ops hU zoom fuel rings S h
+      (∀ e ∈ inter, (⟨e.1, e.2, zoom⟩ : Tile) ∈ set') ∧
+      ((∀ e ∈ inter, e.1 + 1 < 2 ^ 32) →
+        ∀ t ∈ S, t ∈ set' ∨
+          ∃ a b, a ∈ set' ∧ b ∈ set' ∧ t.z = zoom ∧ t.y = a.y ∧ a.x < t.x ∧ t.x < b.x) :=
+  polygon_within_trace_bound' ops zoom fuel rings S h
+
+/-- `line` only adds tiles to the set it is handed, and what it adds (and the ring trace it returns)
+    does not depend on that set. -/
+theorem line_adds_only (ops : Ops α) (zoom fuel : Nat) (set : List Tile) (pts : List (Pt α))
+    (ring : Option (List (Nat × Nat))) :
+    line ops zoom fuel set pts ring =
+      (line ops zoom fuel [] pts ring).map (fun r => (r.1 ++ set, r.2)) :=
+  line_nil_append ops zoom fuel set pts ring
+
+/-- … and so does `polygon`. -/
+theorem polygon_adds_only (ops : Ops α) (zoom fuel : Nat) (set : List Tile) (rings : List (List (Pt α))) :
+    polygon ops zoom fuel set rings = (polygon ops zoom fuel [] rings).map (· ++ set) :=
+  polygon_nil_append ops zoom fuel set rings
+
+/-- The cover of a multi-line-string whose members all have covers is the union of their covers. -/
+theorem cover_multiLineString_union (ops : Ops α) (frac : Pt α → Pt α) (zoom fuel : Nat)
+    (ls : List (List (Pt α)))
+    (hs : ∀ l ∈ ls, ∃ s, cover ops frac zoom fuel (.lineString l) = .ok s) :
+    ∃ S, cover ops frac zoom fuel (.multiLineString ls) = .ok S ∧
+      ∀ t, t ∈ S ↔ ∃ l ∈ ls, ∃ s, cover ops frac zoom fuel (.lineString l) = .ok s ∧ t ∈ s :=
+  cover_multiLineString_union' ops frac zoom fuel ls hs
+
+/-- … and otherwise the outcome of the first member without a cover (only the model's fuel artefact:
+    `tilecover.LineString` has no error return). -/
+theorem cover_multiLineString_error (ops : Ops α) (frac : Pt α → Pt α) (zoom fuel : Nat)
+    (ls₁ : List (List (Pt α))) (l : List (Pt α)) (ls₂ : List (List (Pt α)))
+    (hs : ∀ l' ∈ ls₁, ∃ s, cover ops frac zoom fuel (.lineString l') = .ok s)
+    (hl : (cover ops frac zoom fuel (.lineString l)).isOk = false) :
+    cover ops frac zoom fuel (.multiLineString (ls₁ ++ l :: ls₂)) = cover ops frac zoom fuel (.lineString l) :=
+  cover_multiLineString_error' ops frac zoom fuel ls₁ l ls₂ hs hl
+
+/-- The cover of a multi-polygon whose members all have covers is the union of their covers. -/
+theorem cover_multiPolygon_union (ops : Ops α) (frac : Pt α → Pt α) (zoom fuel : Nat)
+    (ps : List (List (List (Pt α))))
+    (hs : ∀ p ∈ ps, ∃ s, cover ops frac zoom fuel (.polygon p) = .ok s) :
+    ∃ S, cover ops frac zoom fuel (.multiPolygon ps) = .ok S ∧
+      ∀ t, t ∈ S ↔ ∃ p ∈ ps, ∃ s, cover ops frac zoom fuel (.polygon p) = .ok s ∧ t ∈ s :=
+  cover_multiPolygon_union' ops frac zoom fuel ps hs
+
+/-- … and otherwise the outcome of the first member without a cover (`ErrUnevenIntersections`:
+    `MultiPolygon`'s `return nil, err`). -/
+theorem cover_multiPolygon_error (ops : Ops α) (frac : Pt α → Pt α) (zoom fuel : Nat)
+    (ps₁ : List (List (List (Pt α)))) (p : List (List (Pt α))) (ps₂ : List (List (List (Pt α))))
+    (hs : ∀ p' ∈ ps₁, ∃ s, cover ops frac zoom fuel (.polygon p') = .ok s)
+    (hp : (cover ops frac zoom fuel (.polygon p)).isOk = false) :
+    cover ops frac zoom fuel (.multiPolygon (ps₁ ++ p :: ps₂)) = cover ops frac zoom fuel (.polygon p) :=
+  cover_multiPolygon_error' ops frac zoom fuel ps₁ p ps₂ hs hp
 
 end covers
 
@@ -202,10 +260,62 @@ theorem lineString_cover_ok (frac : Pt K → Pt K) (zoom fuel : Nat) (ps : List 
     ∃ S, cover (opsK K) frac zoom fuel (.lineString ps) = .ok S :=
   lineString_cover_ok' frac zoom fuel ps hf
 
+/-- The exact cover of a multi-line-string is sound and complete segment by segment, over all members. -/
+theorem multiLineString_cover_exact (frac : Pt K → Pt K) (zoom fuel : Nat) (ls : List (List (Pt K)))
+    (hnn : ∀ l ∈ ls, ∀ p ∈ l, 0 ≤ (frac p).x ∧ 0 ≤ (frac p).y) (S : List Tile)
+    (h : cover (opsK K) frac zoom fuel (.multiLineString ls) = .ok S) :
+    (∀ c ∈ S, c.z = zoom ∧ ∃ l ∈ ls, ∃ e ∈ (l.map frac).zip ((l.map frac).drop 1), ∃ t : K, 0 ≤ t ∧ t ≤ 1 ∧
+        (c.x : K) ≤ e.1.x + t * (e.2.x - e.1.x) ∧ e.1.x + t * (e.2.x - e.1.x) ≤ (c.x : K) + 1 ∧
+        (c.y : K) ≤ e.1.y + t * (e.2.y - e.1.y) ∧ e.1.y + t * (e.2.y - e.1.y) ≤ (c.y : K) + 1) ∧
+    (∀ l ∈ ls, ∀ e ∈ (l.map frac).zip ((l.map frac).drop 1), e.1 ≠ e.2 →
+      ∀ (i j : Nat) (t : K), 0 ≤ t → t ≤ 1 →
+        (i : K) < e.1.x + t * (e.2.x - e.1.x) → e.1.x + t * (e.2.x - e.1.x) < (i : K) + 1 →
+        (j : K) < e.1.y + t * (e.2.y - e.1.y) → e.1.y + t * (e.2.y - e.1.y) < (j : K) + 1 →
+        (⟨i, j, zoom⟩ : Tile) ∈ S) :=
+  multiLineString_cover_exact' frac zoom fuel ls hnn S h
+
+/-- **Polygon boundary completeness** ("every tile whose interior meets the polygon's boundary"): in exact
+    arithmetic, every tile whose open square an edge of any ring (outer or hole, closed or not) enters is
+    in the polygon's cover, whatever set the cover started from. -/
+theorem polygon_boundary_complete (zoom fuel : Nat) (set : List Tile) (rings : List (List (Pt K)))
+    (S : List Tile) (hnn : ∀ r ∈ rings, ∀ p ∈ r, 0 ≤ p.x ∧ 0 ≤ p.y)
+    (h : polygon (opsK K) zoom fuel set rings = .ok S) :
+    ∀ r ∈ rings, ∀ e ∈ r.zip (r.drop 1), e.1 ≠ e.2 → ∀ (i j : Nat) (t : K), 0 ≤ t → t ≤ 1 →
+      (i : K) < e.1.x + t * (e.2.x - e.1.x) → e.1.x + t * (e.2.x - e.1.x) < (i : K) + 1 →
+      (j : K) < e.1.y + t * (e.2.y - e.1.y) → e.1.y + t * (e.2.y - e.1.y) < (j : K) + 1 →
+      (⟨i, j, zoom⟩ : Tile) ∈ S :=
+  polygon_boundary_complete' zoom fuel set rings S hnn h
+
+/-- … and the same for every member of a multi-polygon (the starting set is kept as well). -/
+theorem multiPolygon_boundary_complete (zoom fuel : Nat) (ps : List (List (List (Pt K))))
+    (set S : List Tile) (hnn : ∀ pg ∈ ps, ∀ r ∈ pg, ∀ p ∈ r, 0 ≤ p.x ∧ 0 ≤ p.y)
+    (h : multiPolygon (opsK K) zoom fuel set ps = .ok S) :
+    (∀ c ∈ set, c ∈ S) ∧
+    ∀ pg ∈ ps, ∀ r ∈ pg, ∀ e ∈ r.zip (r.drop 1), e.1 ≠ e.2 → ∀ (i j : Nat) (t : K), 0 ≤ t → t ≤ 1 →
+      (i : K) < e.1.x + t * (e.2.x - e.1.x) → e.1.x + t * (e.2.x - e.1.x) < (i : K) + 1 →
+      (j : K) < e.1.y + t * (e.2.y - e.1.y) → e.1.y + t * (e.2.y - e.1.y) < (j : K) + 1 →
+      (⟨i, j, zoom⟩ : Tile) ∈ S :=
+  multiPolygon_boundary_complete' zoom fuel ps set S hnn h
+
+/-- **No tile outside the polygon's tile-space bound**: in exact arithmetic, if all vertices of all rings
+    lie in the box `[x0, x1] × [y0, y1]` of the non-negative quadrant (with `x1` below the last `uint32`
+    column — at zoom ≤ 31 every `x1 ≤ 2^zoom` qualifies), every tile of the cover has the cover's zoom
+    and its closed square meets the box.  (Corollary of `polygon_within_trace_bound`: every traced
+    tile meets an edge, `lineSegs_geo`, hence the box; its no-wrap hypothesis follows.) -/
+theorem polygon_within_vertex_bound (zoom fuel : Nat) (rings : List (List (Pt K))) (S : List Tile)
+    (x0 x1 y0 y1 : K) (hnn : ∀ r ∈ rings, ∀ p ∈ r, 0 ≤ p.x ∧ 0 ≤ p.y)
+    (hbox : ∀ r ∈ rings, ∀ p ∈ r, x0 ≤ p.x ∧ p.x ≤ x1 ∧ y0 ≤ p.y ∧ p.y ≤ y1)
+    (hx1 : x1 + 1 < 2 ^ 32)
+    (h : polygon (opsK K) zoom fuel [] rings = .ok S) :
+    ∀ t ∈ S, t.z = zoom ∧ x0 ≤ (t.x : K) + 1 ∧ (t.x : K) ≤ x1 ∧ y0 ≤ (t.y : K) + 1 ∧ (t.y : K) ≤ y1 :=
+  polygon_within_vertex_bound' zoom fuel rings S x0 x1 y0 y1 hnn hbox hx1 h
+
 end dda
 
-/-- NOT PROVED — the polygon interior claim, carried by the executable property (exact even-odd test of
-    sample points of every candidate tile): in exact arithmetic, for a polygon whose rings are closed
+/-- The polygon interior claim — PROVED as `polygon_interior_full_holds` in `OrbProofs.C14Fill` (which
+    imports this file; `polygon_interior_cover` there is the same statement without the general-position
+    hypothesis); on the implementation's outputs it is also measured by the executable property (exact
+    even-odd test of sample points of every candidate tile): in exact arithmetic, for a polygon whose rings are closed
     (first vertex = last), every tile whose open square contains a point that the even-odd rule puts inside
     the polygon is in the cover.  `inside q` is the crossing-number parity of the horizontal ray from `q`. -/
 def polygon_interior_full : Prop :=
@@ -219,6 +329,37 @@ def polygon_interior_full : Prop :=
           decide ((e.1.y > q.y) ≠ (e.2.y > q.y)) &&
           decide (q.x < e.1.x + (q.y - e.1.y) * (e.2.x - e.1.x) / (e.2.y - e.1.y))).length % 2 = 1) →
       (⟨i, j, zoom⟩ : Tile) ∈ S
+
+/-- Non-vacuity of `cover_multiLineString_union` / `multiLineString_cover_exact`: the two line strings
+    `(0,0) (2,1)` and `(4,4) (4,6)` (tile space, zoom 3) have covers, so the multi-line-string has their
+    union as its cover, and the tile `(1, 0)` — entered by the first at `t = 3/4` — is in it. -/
+example : ∃ S, cover (opsK ℚ) id 3 20
+      (.multiLineString [[(⟨0, 0⟩ : Pt ℚ), ⟨2, 1⟩], [⟨4, 4⟩, ⟨4, 6⟩]]) = .ok S ∧
+    (∀ t, t ∈ S ↔ ∃ l ∈ [[(⟨0, 0⟩ : Pt ℚ), ⟨2, 1⟩], [⟨4, 4⟩, ⟨4, 6⟩]],
+      ∃ s, cover (opsK ℚ) id 3 20 (.lineString l) = .ok s ∧ t ∈ s) ∧
+    (⟨1, 0, 3⟩ : Tile) ∈ S := by
+  have hs : ∀ l ∈ [[(⟨0, 0⟩ : Pt ℚ), ⟨2, 1⟩], [⟨4, 4⟩, ⟨4, 6⟩]],
+      ∃ s, cover (opsK ℚ) id 3 20 (.lineString l) = .ok s := by
+    intro l hl
+    apply lineString_cover_ok
+    intro e he
+    simp only [List.mem_cons, List.not_mem_nil, or_false] at hl
+    rcases hl with rfl | rfl <;>
+      simp only [List.map_id_fun, id_eq, List.drop_succ_cons, List.drop_zero, List.zip_cons_cons,
+        List.zip_nil_right, List.mem_cons, List.not_mem_nil, or_false] at he <;>
+      subst he <;> norm_num
+  obtain ⟨S, hS, hmem⟩ := cover_multiLineString_union (opsK ℚ) id 3 20 _ hs
+  refine ⟨S, hS, hmem, ?_⟩
+  have hnn : ∀ l ∈ [[(⟨0, 0⟩ : Pt ℚ), ⟨2, 1⟩], [⟨4, 4⟩, ⟨4, 6⟩]], ∀ p ∈ l,
+      0 ≤ (id p).x ∧ 0 ≤ (id p).y := by
+    intro l hl p hp
+    simp only [List.mem_cons, List.not_mem_nil, or_false] at hl
+    rcases hl with rfl | rfl <;>
+      simp only [List.mem_cons, List.not_mem_nil, or_false] at hp <;>
+      rcases hp with rfl | rfl <;> norm_num
+  exact (multiLineString_cover_exact id 3 20 _ hnn S hS).2 [⟨0, 0⟩, ⟨2, 1⟩] (by simp)
+    (⟨0, 0⟩, ⟨2, 1⟩) (by simp) (by simp) 1 0 (3 / 4) (by norm_num) (by norm_num)
+    (by norm_num) (by norm_num) (by norm_num) (by norm_num)
 
 /-- Non-vacuity: a complete quad at zoom 2 plus one more tile satisfies the hypotheses of `mergeUp_spec`;
     merged to zoom 0 and to zoom 1 with two different enumeration orders the quad becomes its parent and
